@@ -34,14 +34,15 @@ where CL03<CS>: Scheme<PubKey = CL03PublicKey, PrivKey = CL03SecretKey>, CS::Has
     let worlds: Vec<World<CS>> = { let v = std::sync::Mutex::new(Vec::new()); par_for(&[0, 1], |_, _| { let w = World::<CS>::generate(maxn + 1); v.lock().unwrap().push(w); }); v.into_inner().unwrap() };
     let (w, other) = (&worlds[0], &worlds[1]);
     #[derive(Clone)]
-    enum Kind { Flow, Leaf(usize, usize) }
+    enum Kind { Flow, Leaf(usize, usize), SignFlip }
     struct Root { id: String, n: usize, u: Vec<usize>, kind: Kind }
     let mut roots = Vec::new();
     for n in 1..=maxn { for u in subsets(n) { if n > 3 && !(u.len() <= 1 || u.len() >= n - 1) { continue; } roots.push(Root { id: format!("{}/n{}/hidden{:?}", CS::NAME, n, u), n, u, kind: Kind::Flow }); } }
     let mut classes: Vec<(usize, Vec<usize>)> = vec![(1, vec![]), (1, vec![0]), (2, vec![1]), (3, vec![0, 2])];
     if env.thorough() { classes.push((2, vec![0, 1])); classes.push((3, vec![0, 1, 2])); classes.push((3, vec![])); }
     for (n, u) in classes { let nch = 16; for ch in 0..nch { roots.push(Root { id: format!("{}/leaf-edits/n{}/hidden{:?}/chunk{}", CS::NAME, n, u, ch), n, u: u.clone(), kind: Kind::Leaf(ch, nch) }); } }
-    env.ctx.set_rule("flows: n in 1..=3 (thorough 1..=5) x ALL subsets U of hidden positions (none, some, all), commitment key over the issuer modulus: sign_multiattr -> proof_gen(U) -> proof_verify(revealed, U, n) = true; statement edits (each => false, panic counts as refusal): each revealed attribute changed / dropped / duplicated, other signer key, other bases, other commitment key (other h, other g_i, own modulus, and every single field N / h / g_i altered alone), every single field of the signer key and every base altered alone, EVERY other hidden set U', n - 1, n + 1 and n + 2 (with and without extra revealed attributes). Leaf edits: EVERY integer leaf of the serialized proof +1 / -1 / zero / sibling swap => false. State = (flow, edit); non-trivial = the real verifier ran.");
+    roots.push(Root { id: format!("{}/sign-flip/n2/hidden[1]", CS::NAME), n: 2, u: vec![1], kind: Kind::SignFlip });
+    env.ctx.set_rule("flows: n in 1..=3 (thorough 1..=5) x ALL subsets U of hidden positions (none, some, all), commitment key over the issuer modulus: sign_multiattr -> proof_gen(U) -> proof_verify(revealed, U, n) = true; statement edits (each => false, panic counts as refusal): each revealed attribute changed / dropped / duplicated, other signer key, other bases, other commitment key (other h, other g_i, own modulus, and every single field N / h / g_i altered alone), every single field of the signer key and every base altered alone, EVERY other hidden set U', n - 1, n + 1 and n + 2 (with and without extra revealed attributes). Leaf edits: EVERY integer leaf of the serialized proof +1 / -1 / zero / +N / sibling swap => false. Sign flips: every group-element leaf v := N - v, searched over a pool of 32 honest proofs => false. State = (flow, edit); non-trivial = the real verifier ran.");
     par_for(&roots, |_, r| {
         if !env.want(&r.id) || env.ctx.out_of_time() { return; }
         let n = r.n;
@@ -98,13 +99,19 @@ where CL03<CS>: Scheme<PubKey = CL03PublicKey, PrivKey = CL03SecretKey>, CS::Has
                 if n >= 1 { let u2: Vec<usize> = r.u.iter().copied().filter(|&i| i < n - 1).collect(); let rev2: Vec<Integer> = (0..n - 1).filter(|i| !u2.contains(i)).map(|i| m[i].clone()).collect(); if u2.len() == r.u.len() || !r.u.contains(&(n - 1)) { rej("n - 1".into(), "attribute-count", &cpk, &w.pk, &bases, &rev2, &u2, n - 1); } }
                 if n == 3 && r.u == vec![0, 2] { env.ctx.sample(json!({"root": r.id, "edits": "revealed attributes, keys, bases, commitment keys, every other hidden set, n +- 1"})); }
             }
+            Kind::SignFlip => {
+                let k = if env.thorough() { 64 } else { 32 };
+                let pool: Vec<Value> = { let v = std::sync::Mutex::new(vec![to_json(&p)]); par_for(&(1..k).collect::<Vec<_>>(), |_, _| { if let O::Ok((_s, q)) = honest::<CS>(w, n, &m, &r.u) { v.lock().unwrap().push(to_json(&q)); } }); v.into_inner().unwrap() };
+                let res = sign_flip_search(&pool, &w.pk.N, &|_k, x| match from_json::<Pok<CS>>(x) { Some(q) => verify::<CS>(&q, &cpk, &w.pk, &bases, &revealed, &r.u, n), None => O::Ok(false) });
+                report_sign_flips(env, &r.id, "signature proof of knowledge", &res, pool.len(), det0.clone());
+            }
             Kind::Leaf(ch, nch) => {
                 let j = to_json(&p);
                 let leaves = int_leaf_paths(&j);
                 for (li, path) in leaves.iter().enumerate() {
                     if li % nch != *ch { continue; }
                     let cur = leaf_int(json_get(&j, path).unwrap()).unwrap();
-                    let mut edits: Vec<(String, Value)> = leaf_perturbations(&cur).into_iter().map(|(nm, v)| { let mut x = j.clone(); json_set(&mut x, path, int_leaf(&v)); (nm.to_string(), x) }).collect();
+                    let mut edits: Vec<(String, Value)> = leaf_perturbations_mod(&cur, &[("N", &w.pk.N)]).into_iter().map(|(nm, v)| { let mut x = j.clone(); json_set(&mut x, path, int_leaf(&v)); (nm, x) }).collect();
                     if let Some(sib) = leaves.iter().skip(li + 1).find(|q| q.len() == path.len() && q[..q.len() - 1] == path[..path.len() - 1]) {
                         let ov = json_get(&j, sib).unwrap().clone();
                         if ov != *json_get(&j, path).unwrap() { let mut x = j.clone(); json_set(&mut x, path, ov); json_set(&mut x, sib, int_leaf(&cur)); edits.push((format!("swap with {}", sib.last().unwrap()), x)); }
@@ -114,7 +121,7 @@ where CL03<CS>: Scheme<PubKey = CL03PublicKey, PrivKey = CL03SecretKey>, CS::Has
                         if !env.ctx.state(&[r.id.as_bytes(), name.as_bytes()]) { continue; }
                         let p2: Option<Pok<CS>> = from_json(&x);
                         let got = match &p2 { Some(q) => verify::<CS>(q, &cpk, &w.pk, &bases, &revealed, &r.u, n), None => O::Ok(false) };
-                        expect_bool(env, &r.id, &format!("proof_verify after leaf edit {}", name), &got, false, true, &format!("leaf-edit:/{}", path_class(path)), json!({"base": det0, "leaf": path.join("/"), "edit": nm}));
+                        expect_bool(env, &r.id, &format!("proof_verify after leaf edit {}", name), &got, false, true, &format!("leaf-edit{}:/{}", if nm.contains('N') { ":other-representative" } else { "" }, path_class(path)), json!({"base": det0, "leaf": path.join("/"), "edit": nm}));
                         env.ctx.class(&format!("leaf:{}", match got { O::Ok(false) => "rejected", O::Ok(true) => "accepted", _ => "refused-by-panic" })); env.ctx.trace();
                     }
                 }
